@@ -274,6 +274,16 @@ def run_batch(scns, tag):
     nsh = min(16, max(1, len(scns) // 4))
     shards = [scns[i::nsh] for i in range(nsh)]
 
+    def budget(items, base):
+        # a scenario may legitimately make very many calls (an hour-long wait_timeout is 36 000 loop iterations):
+        # the watchdog allows for the calls the scenario itself says it may make
+        n = 0
+        for it in items:
+            for ln in it["text"].splitlines():
+                if ln.startswith("maxcalls "):
+                    n += int(ln.split()[1])
+        return min(base + n // 4000, 1500)
+
     def drive(name, items, timeout):
         sf = os.path.join(d, "s%s.scn" % name)
         rf = os.path.join(d, "r%s.txt" % name)
@@ -294,7 +304,7 @@ def run_batch(scns, tag):
 
     try:
         with ThreadPoolExecutor(max_workers=nsh) as ex:
-            outs = list(ex.map(lambda i: drive(str(i), shards[i], SHARD_TIMEOUT), range(nsh)))
+            outs = list(ex.map(lambda i: drive(str(i), shards[i], budget(shards[i], SHARD_TIMEOUT)), range(nsh)))
         stuck = []
         for i, (rc, out, err, rep) in enumerate(outs):
             if rc == 124:
@@ -303,7 +313,7 @@ def run_batch(scns, tag):
                 collect(shards[i], rc, out, err, rep)
         if stuck:
             with ThreadPoolExecutor(max_workers=16) as ex:
-                singles = list(ex.map(lambda js: drive("x%d" % js[0], [js[1]], SINGLE_TIMEOUT), enumerate(stuck)))
+                singles = list(ex.map(lambda js: drive("x%d" % js[0], [js[1]], budget([js[1]], SINGLE_TIMEOUT)), enumerate(stuck)))
             for s, (rc, out, err, rep) in zip(stuck, singles):
                 if rc == 124:
                     drv = split_blocks(out, "scn ", "endscn")
